@@ -2,7 +2,8 @@
 
 Space  : skeleton product {no base, one base, two bases (diamond), starred bases} x {default,
          explicit metaclass accepting **kw} x {no class keywords, keyword consumed by
-         __init_subclass__} x {0,1,2 decorators} x member sets of 1 kind (quick) / every pair of
+         __init_subclass__; plus 9 further header shapes: keyword order around metaclass=, several
+         keywords, ** expansion - with a reduced member set} x {0,1,2 decorators} x member sets of 1 kind (quick) / every pair of
          kinds (thorough) from 19 member kinds x placement {module, function, class, function with the header's
          helpers local to it, class with the helpers as its members} x 8 option combinations.
 Oracle : filtered vars(cls) (metadata dunders excluded), MRO names, type(cls), result of calling
@@ -20,17 +21,18 @@ LEVEL = "exploration"
 PRE = '''
 class Meta(type):
     def __new__(m, n, b, d, **kw):
-        c = super().__new__(m, n, b, d)
-        c.meta_kw = sorted(kw)
+        c = super().__new__(m, n, b, d, **kw)
+        c.meta_kw = sorted(kw.items())
         return c
     def __init__(c, n, b, d, **kw):
         super().__init__(n, b, d)
 class Base0:
     def who(self):
         return 'Base0'
-    def __init_subclass__(cls, tag=None, **kw):
+    def __init_subclass__(cls, tag=None, level=None, **kw):
         super().__init_subclass__(**kw)
         cls.tag = tag
+        cls.level = level
 class L(Base0):
     def who(self):
         return 'L>' + super().who()
@@ -44,7 +46,22 @@ def deco2(c):
     c.d2 = 10
     return c
 GX = 'global-x'
+KWD = {'tag': 'Td', 'level': 4}
+MKW = {'metaclass': Meta, 'level': 5}
 '''
+# further header shapes (keyword order relative to metaclass=, several keywords, ** expansion), explored with a
+# reduced member set: every class keyword must reach the metaclass and __init_subclass__ with its own value
+HEADERS_EXTRA = {
+    "tag,meta": "tag='T', metaclass=Meta",
+    "tag,level,meta": "tag='T', level=3, metaclass=Meta",
+    "tag,meta,level": "tag='T', metaclass=Meta, level=3",
+    "meta,tag,level": "metaclass=Meta, tag='T', level=3",
+    "tag,level": "tag='T', level=3",
+    "level,tag": "level=3, tag='T'",
+    "**kwd": "**KWD",
+    "meta,**kwd": "metaclass=Meta, **KWD",
+    "tag,**mkw": "tag='T', **MKW",
+}
 BASES = {"none": "", "one": "Base0", "two": "L, Rr", "star": "*[L]"}
 METAS = {"none": "", "meta": "metaclass=Meta"}
 KWS = {"none": "", "tag": "tag='T'"}
@@ -100,7 +117,7 @@ def obs(c):
     if hasattr(c, 'In'): out['nested'] = (c.In().zm(), c.In.__name__)
     if hasattr(c, '__len__'): out['len'] = (len(i), i == 5)
     class Sub(c): pass
-    out['sub'] = (getattr(Sub, 'sub_seen', None), getattr(Sub, 'traced_seen', None), getattr(Sub, 'tag', None), Sub().who() if hasattr(Sub, 'who') else None,
+    out['sub'] = (getattr(Sub, 'sub_seen', None), getattr(Sub, 'traced_seen', None), getattr(Sub, 'tag', None), getattr(Sub, 'level', None), Sub().who() if hasattr(Sub, 'who') else None,
                   Sub.c() if hasattr(Sub, 'c') else None, Sub().cc() if hasattr(Sub, 'cc') else None)
     return sorted(out.items())
 '''
@@ -117,6 +134,28 @@ def _ind(s):
 
 
 def progs(maxkinds):
+    for x in _progs(maxkinds):
+        yield x
+    for (bn, b), (hn, h), (dn, d), m in itertools.product([(k, BASES[k]) for k in ("one", "two", "star")], HEADERS_EXTRA.items(), [(k, DECOS[k]) for k in ("0", "1")], ("attr", "initsub", "super0")):
+        cd = "%sclass K(%s, %s):\n%s" % (d, b, h, MEMBERS[m])
+        for place in ("module", "function", "class", "function-local", "class-local"):
+            yield "c12:B[%s] H[%s] D[%s] M[%s] P[%s]" % (bn, hn, dn, m, place), _placed(cd, place)
+
+
+def _placed(cd, place):
+    if place == "module":
+        return PRE + cd + "print(obs(K))\n"
+    if place == "function":
+        return PRE + "def mk(PARAM=None):\n    ENCL = 'enclosing'\n    if PARAM is None:\n        PARAM = 'rebound'\n" + _ind(cd) + "    print(obs(K))\n    return K\nRES = mk()\n"
+    if place == "function-local":
+        return ("def mk(PARAM=None):\n    ENCL = 'enclosing'\n    if PARAM is None:\n        PARAM = 'rebound'\n" + _ind(PRE.strip("\n"))
+                + "    def _use():\n        return Meta, Base0, L, Rr, deco1, deco2, GX, KWD, MKW\n" + _ind(cd) + "    print(obs(K), len(_use()))\n    return K\nRES = mk()\n")
+    if place == "class-local":
+        return "GX = 'global-x'\nclass Outer:\n" + _ind(PRE.strip("\n").replace("GX = 'global-x'", "pass")) + _ind(cd) + "    seen = K\nprint(obs(Outer.K), Outer.seen is Outer.K)\n"
+    return PRE + "class Outer:\n" + _ind(cd) + "    seen = K\nprint(obs(Outer.K), Outer.seen is Outer.K)\n"
+
+
+def _progs(maxkinds):
     mems = list(MEMBERS)
     sets = [(m,) for m in mems]
     if maxkinds >= 2:
